@@ -5,6 +5,7 @@ import SignaloModel.Proofs.OwnedDeque
 import SignaloModel.Proofs.DequeExact
 import SignaloModel.Proofs.DequeBracket
 import SignaloModel.Proofs.DequeExactFrom
+import SignaloModel.Proofs.DequeMono
 /-!
 # C04 — Moving min/max/bounds equal the extrema of the last min(k,N) samples
 
@@ -13,6 +14,7 @@ The property theorems for C04: `#check` prints each statement, `#print axioms` i
 -/
 open SignaloModel
 
+#check @SignaloModel.Deque.taps_monotonic_run
 #check @SignaloModel.Deque.taps_exact_from
 #check @SignaloModel.Deque.minmax_bracket
 #check @SignaloModel.Deque.taps_exact_run
@@ -29,6 +31,7 @@ open SignaloModel
 #check @Deque.stepU_correct
 #check @Deque.tick_rel
 
+#print axioms SignaloModel.Deque.taps_monotonic_run
 #print axioms SignaloModel.Deque.taps_exact_from
 #print axioms SignaloModel.Deque.minmax_bracket
 #print axioms SignaloModel.Deque.taps_exact_run
